@@ -262,7 +262,8 @@ class Bench:
         t = {"advance": advance, "count": list(struct.pack(">I", len(blocks))),
              "blocks": align_ties(expected(blocks, advance), blocks, got) if advance else expected(blocks, advance),
              "got": got, "dev": dev, "code": code if has else 99, "hascode": has, "coop": bool(coop),
-             "lost": lost_answer_at is not None}
+             "lost": lost_answer_at is not None,
+             "badblk": next((i + 1 for i, b in enumerate(blocks) if advance and len(b["fields"]) in (17, 18)), 0)}
         meta = {"code": code, "apdus": len([e for e in self.world.log if e["ev"] == "apdu"]),
                 "shutdown": o.shutdown, "n_blocks": len(blocks)}
         self.world.fault_hook = None
